@@ -123,6 +123,14 @@ def spaces(tier, seed):
                 hi12.append({"kind": "one", "m": "zncc", "w": w, "s": s,
                              "spec": {"ny": ny, "nx": nx, "dmin": -2, "dmax": 1, "seed": seed, "gain": 2.0 ** -20,
                                       "offset": 0, "origin": _origin(k)}})
+    # bright and nearly flat radiometry (level 20000, texture of a dozen grey levels: window std / level ~ 2e-4):
+    # a textured window is not a zero-variance window
+    for w in (3, 5):
+        for s in (1,):  # subpix 1: see the 12-bit note above
+            k += 1
+            hi12.append({"kind": "one", "m": "zncc", "w": w, "s": s,
+                         "spec": {"ny": w + 4, "nx": w + 5, "dmin": -1, "dmax": 2, "seed": seed, "gain": 0.125,
+                                  "offset": 20000, "origin": _origin(k)}})
     # order by interval length over the whole product (simplest first)
     lvl0.sort(key=lambda c: (c["spec"]["dmax"] - c["spec"]["dmin"]))
 
